@@ -686,6 +686,14 @@ func (zp *ZoneParser) Next() (RR, bool) {
 				return zp.setParseError(err.err, err.lex)
 			}
 
+			if zp.c.l.err {
+				// The lexer reported an error (e.g. an unbalanced parenthesis or
+				// an unterminated quote) in a token the record's parser did not
+				// look at. Without this the record would be returned and the
+				// rest of the zone silently dropped, because lexer errors are sticky.
+				return zp.setParseError(zp.c.l.token, zp.c.l)
+			}
+
 			if parseAsRFC3597 {
 				err := parseAsRR.(*RFC3597).fromRFC3597(rr)
 				if err != nil {
